@@ -43,7 +43,7 @@ var classes = []classSpec{
 	{`\W`, []string{" ", "-", "é", "\n"}},
 }
 
-var literals = []string{"a", "b", "c", "ab", "abc", "x", "é", "日本", "ß", ".", "+", "(", ")", "*", "[", " ", "\n", "\r\n", "\"", "'", "<", "&", ">", "-", "0", "1", "12", "=", "\\", "K", "k", "#", "/*", "*/", "${", "}", "`"}
+var literals = []string{"a", "b", "c", "ab", "abc", "x", "é", "日本", "ß", ".", "+", "(", ")", "*", "[", " ", "\n", "\r\n", "\"", "'", "<", "&", ">", "-", "0", "1", "12", "=", "\\", "K", "k", "#", "/*", "*/", "${", "}", "`", "\x1b[", "\x7f", "\v", "\a", "\U000E0001"}
 
 var anchors = []string{`^`, `$`, `\b`, `\B`, `(?m:^)`, `(?m:$)`, `\A`, `\z`}
 
